@@ -949,6 +949,48 @@ fn families_of(prop: &str, tier: Tier) -> Vec<Cfg> {
             d.max_reqs = if q { 9 } else { 10 };
             d.dev = 0;
             v.push(d);
+            // the local window of eight on a resumed connection whose CONNACK says nothing (or more than eight): what is
+            // still in flight from the connection before counts
+            let mut lr = Cfg::base("C06-local-window-on-a-resumed-connection");
+            lr.must_reach = vec!["publish refused because the send window is full"];
+            lr.props = vec!["C06"];
+            lr.ops = vec![OpK::Pub1, OpK::Pub2, OpK::Poll];
+            lr.io = IoMenu::benign();
+            lr.broker.receive_max = vec![None, Some(9), Some(65535), Some(8)];
+            lr.broker.reorder_window = 1;
+            lr.broker.fifo = true;
+            lr.broker.pubcomp_last = true;
+            lr.tx = 512;
+            lr.preludes = vec![
+                vec![OpK::Pub2, OpK::Pub1, OpK::Pub2, OpK::DropConn],
+                vec![OpK::Pub2, OpK::Pub2, OpK::Pub2, OpK::Poll, OpK::Poll, OpK::Poll, OpK::DropConn],
+                vec![OpK::Pub1, OpK::DropConn],
+            ];
+            lr.max_ops = if q { 14 } else { 16 };
+            lr.max_conns = 2;
+            lr.max_reqs = 11;
+            lr.dev = 0;
+            v.push(lr);
+            // ... and with all eight places for exchanges waiting for PUBCOMP taken before the connection is lost
+            let mut lf = Cfg::base("C06-eight-exchanges-waiting-for-pubcomp-then-resumed");
+            lf.must_reach = vec!["eight QoS 2 exchanges waiting for PUBCOMP", "publish refused because the send window is full"];
+            lf.props = vec!["C06"];
+            lf.ops = vec![OpK::Pub2, OpK::Pub1, OpK::Poll];
+            lf.io = IoMenu::benign();
+            lf.broker.receive_max = vec![None, Some(9), Some(65535), Some(8)];
+            lf.broker.reorder_window = 1;
+            lf.broker.fifo = true;
+            lf.broker.pubcomp_last = true;
+            lf.tx = 512;
+            let mut opening = vec![OpK::Pub2; 8];
+            opening.extend(vec![OpK::Poll; 8]);
+            opening.push(OpK::DropConn);
+            lf.preludes = vec![opening];
+            lf.max_ops = if q { 21 } else { 23 };
+            lf.max_conns = 2;
+            lf.max_reqs = 11;
+            lf.dev = 0;
+            v.push(lf);
             v
         }
         "C07" => {
